@@ -31,6 +31,8 @@ type C05Scenario struct {
 	Pubs         []int    `json:"pubs"` // event ids, published one after another
 	PanicHandler bool     `json:"panic_handler"`
 	WaitEach     bool     `json:"wait_each"` // Wait after every publish (otherwise only at the end)
+	Obs          bool     `json:"obs,omitempty"`     // bus configured with an Observability
+	ViaAny       bool     `json:"via_any,omitempty"` // publish through an interface-typed value (reflection dispatch path)
 }
 
 type customPanic struct{ N int }
@@ -77,6 +79,8 @@ func genC05(rt *rapid.T) core.Scenario {
 	}
 	sc.PanicHandler = rapid.IntRange(0, 3).Draw(rt, "panicHandler") > 0
 	sc.WaitEach = rapid.Bool().Draw(rt, "waitEach")
+	sc.Obs = rapid.IntRange(0, 3).Draw(rt, "obs") == 3
+	sc.ViaAny = rapid.IntRange(0, 3).Draw(rt, "viaAny") == 3
 	sc.Tape = core.DrawTape(rt, 300)
 	return sc
 }
@@ -117,6 +121,9 @@ func (sc *C05Scenario) Execute(t *testing.T) *core.Outcome {
 				w.Rec.Add("panic-handler", id, 0, fmt.Sprint(ht))
 			}))
 		}
+		if sc.Obs {
+			opts = append(opts, eventbus.WithObservability(nopObs{}))
+		}
 		w = NewWorld(opts...)
 		w.OnInvoke = func(ti, fn, uid int, ctx context.Context, id int) {
 			ri := regOfFn[fn]
@@ -147,7 +154,11 @@ func (sc *C05Scenario) Execute(t *testing.T) *core.Outcome {
 		}
 		for _, id := range sc.Pubs {
 			w.Rec.Add("pub", id, 0, "")
-			ops.Pub(w, context.Background(), id)
+			if sc.ViaAny {
+				ops.PubAny(w, context.Background(), id)
+			} else {
+				ops.Pub(w, context.Background(), id)
+			}
 			pubReturned++
 			if sc.WaitEach {
 				w.Bus.Wait()
